@@ -293,6 +293,52 @@ let exec (s : t) (verbose : bool) (f : string array) (obs : string option) : str
       | `G _ -> let rb = run b in let ra = run a in "parked " ^ ra ^ " " ^ rb
       | _ -> let ra = run a in let rb = run b in "parked " ^ ra ^ " " ^ rb)
   | "concstress" | "concmix" -> "done"
+  | "dtset" | "dtget" | "dtdel" | "dttype" | "hset" | "hget" | "hdel" | "sadd" | "srem" | "sismember"
+  | "lpush" | "rpush" | "lpop" | "rpop" | "zadd" | "zscore" ->
+    (* clock readings and the batch id are inputs observed from the implementation *)
+    let o = match obs with Some o -> obs_head o | None -> "" in
+    let (_, inp) = split_first o " @ " in
+    let field name =
+      let (_, r) = split_first (" " ^ inp) (" " ^ name ^ "=") in
+      match String.split_on_char ' ' r with x :: _ when x <> "" -> x | _ -> "0" in
+    let now = n_of_string (field "now") and ver = n_of_string (field "ver")
+    and exp = n_of_string (field "exp") and bid = n_of_string (field "bid") in
+    let a i = tok_bytes f.(i) in
+    let key = a 2 in
+    let c = match f.(1) with
+      | "dtset" -> KSet (key, a 3, exp)
+      | "dtget" -> KGet key
+      | "dtdel" -> KDel key
+      | "dttype" -> KType key
+      | "hset" -> KHSet (key, a 3, a 4)
+      | "hget" -> KHGet (key, a 3)
+      | "hdel" -> KHDel (key, a 3)
+      | "sadd" -> KSAdd (key, a 3)
+      | "sismember" -> KSIsMember (key, a 3)
+      | "srem" -> KSRem (key, a 3)
+      | "lpush" -> KPush (key, a 3, true)
+      | "rpush" -> KPush (key, a 3, false)
+      | "lpop" -> KPop (key, true)
+      | "rpop" -> KPop (key, false)
+      | "zadd" -> KZAdd (key, bytes_of_string f.(3), a 4)
+      | _ -> KZScore (key, a 3) in
+    let ((d, out), evs) = run_cmd (get_db s) c ver now bid in
+    let reply = match out with
+      | OErr e -> "err " ^ eerr_name e
+      | OReply r ->
+        (match r with
+         | DOk -> "ok" | DNil -> "nil" | DBytes b -> if b = [] then "nil" else "v " ^ obs_bytes b
+         | DBool b -> if b then "b1" else "b0"
+         | DSize n -> "n " ^ string_of_n n
+         | DScore sc -> "s " ^ (if sc = [] then "0" else string_of_bytes sc)
+         | DNoScore -> "s -1"
+         | DType t -> "t " ^ string_of_n t
+         | DWrongType -> "wrongtype" | DNotFound -> "err notfound" | DNull -> "null" | DKeyEmpty -> "err keyempty") in
+    let ((d, r), evs2) = db_get d key in
+    s.db <- Some d;
+    let raw = match r with Inl v -> obs_bytes v | Inr _ -> "none" in
+    Printf.sprintf "%s @ now=%s ver=%s exp=%s bid=%s raw=%s" reply (field "now") (field "ver") (field "exp") (field "bid") raw
+    ^ events_str (evs @ evs2)
   | "probeclose" -> ""
   | "hostile" -> ""
   | "close" ->
